@@ -434,6 +434,37 @@ def _simulate_set_tape_flags(w: World, target_rel: str, add_rel: str, key_in_def
                 h.obj['T'] = h.new(val)
             else:
                 raise AnalysisError(f'set_tape_flags: unrecognised flags rebinding `{ast.unparse(s)[:60]}`')
+        elif isinstance(s, ast.Expr) and isinstance(s.value, ast.Call) and isinstance(s.value.func, ast.Attribute) \
+                and s.value.func.attr == 'update' and is_tflags(s.value.func.value) and len(s.value.args) == 1 \
+                and not s.value.keywords:
+            # tape.flags.update(<A | {**A} | dict(A) | {k: v for k, v in A.items() if ..}>): the argument is
+            # evaluated first, from the *current* contents of its source
+            v = s.value.args[0]
+            src = obj_of(v)
+            if src is None and isinstance(v, ast.Dict) and len(v.keys) == 1 and v.keys[0] is None:
+                src = obj_of(v.values[0])
+            if src is None and isinstance(v, ast.Call) and isinstance(v.func, ast.Name) and v.func.id == 'dict' \
+                    and len(v.args) == 1:
+                src = obj_of(v.args[0])
+            if src is None and isinstance(v, ast.DictComp) and len(v.generators) == 1:
+                g = v.generators[0]
+                if isinstance(g.iter, ast.Call) and isinstance(g.iter.func, ast.Attribute) and g.iter.func.attr == 'items' \
+                        and isinstance(g.target, ast.Tuple) and len(g.target.elts) == 2 \
+                        and all(isinstance(x, ast.Name) for x in g.target.elts) \
+                        and isinstance(v.key, ast.Name) and v.key.id == g.target.elts[0].id \
+                        and isinstance(v.value, ast.Name) and v.value.id == g.target.elts[1].id:
+                    cand = obj_of(g.iter.func.value)
+                    if cand is not None and all(cond_holds(c, g.target.elts[0].id) is not False for c in g.ifs):
+                        src = cand
+                    elif cand is not None:
+                        src = 'skip'
+            if src is None:
+                raise AnalysisError(f'set_tape_flags: unrecognised update `{ast.unparse(s)[:60]}`')
+            if src == 'G':
+                if key_in_defaults:
+                    h.set('T', 'D')
+            elif src != 'skip' and h.get(src) is not None:
+                h.set('T', h.get(src))
         elif isinstance(s, ast.Return):
             break
         elif isinstance(s, ast.If):
